@@ -375,6 +375,12 @@ class MinErrorFlow():
         """
         utils.logger.info(f"{__name__}: solving with graph id = {utils.fpid(self.G)}")
         start_time = time.perf_counter()
+        # A previous call may have replaced the solver by the second-phase model (few flow values): start again from the first phase
+        if getattr(self, "_second_phase_model_built", False):
+            self._create_solver()
+            self._encode_flow()
+            self._encode_min_sum_errors_objective()
+            self._second_phase_model_built = False
         self.solver.optimize()
         self.solve_statistics[f"milp_solve_time"] = (time.perf_counter() - start_time)
 
@@ -415,6 +421,7 @@ class MinErrorFlow():
                 utils.logger.info(f"{__name__}: re-solving now by minimizing the number of different flow values within 1 + epsilon tolerance to the objective value, i.e. <=(1+{self.different_flow_values_epsilon})*{objective_value}")
                 self._create_solver()
                 self._encode_flow()
+                self._second_phase_model_built = True
                 self._encode_different_flow_values_and_objective(
                     edge_subset=edge_subset,
                     objective_value=objective_value,
